@@ -46,7 +46,7 @@ InvNested == Complete(nodes) => Nested(nodes)
 Out(D) == LET R == PlanOf(D) IN
           [doc |-> D,
            groups |-> {[path |-> g.id.path, chain |-> g.id.chain, parent |-> g.parent.chain] : g \in R.groups},
-           tasks |-> {[path |-> t.path, gs |-> {g.chain : g \in t.gs}, keys |-> t.keys] : t \in R.tasks},
+           tasks |-> {[path |-> t.path, gs |-> {g.chain : g \in t.gs}, keys |-> t.keys, soon |-> t.soon] : t \in R.tasks},
            execs |-> R.execs]
 InvEmit == (Emit /\ Complete(nodes)) => PrintT(ToJson(Out(nodes)))
 =============================================================================
